@@ -1021,6 +1021,8 @@ def value_attr(I, obj, name):
             from .symval import ViewVec
             return ViewVec(obj, lambda x: part(to_expr(x)), obj.col)
         if name == "T":
+            if obj.items and all(isinstance(r, Vec) for r in obj.items) and len({len(r) for r in obj.items}) == 1:
+                return Vec(Vec(r.items[j] for r in obj.items) for j in range(len(obj.items[0])))
             return obj
         if name == "flags":
             from .symval import VecFlags
@@ -2249,6 +2251,16 @@ def _numpy_more(I, name):
         return lambda a, *r: sp.Integer(len(flat(a)))
     if name == "ndim":
         return lambda a: sp.Integer(len(_vshape(_tovec(a))) if isinstance(_tovec(a), Vec) else 0)
+    if name == "fromiter":
+        def fromiter(it, dtype=None, count=-1, **k):
+            xs = iterate(I, it)
+            n = concrete_int(count)
+            if n >= 0:
+                if len(xs) < n:
+                    raise SymRaise("ValueError", "iterator too short")
+                xs = xs[:n]
+            return _as_dtype(I, Vec(xs), dtype, True)
+        return fromiter
     if name in ("multiply", "add", "subtract", "divide", "true_divide"):
         opn = {"multiply": ast.Mult, "add": ast.Add, "subtract": ast.Sub, "divide": ast.Div, "true_divide": ast.Div}[name]
 
